@@ -229,6 +229,9 @@ def run(chk, repo, tier):
     chk.clause('C07-i', 'the pointwise product with a plane: a one-element phasor inherits the shape and offset of the field (and vice versa); the product is taken on the overlap', 3)
     from .c06 import product_rules
     product_rules(chk, repo, 'C07-i')
+    from .c06 import scalar_product_rule as _scalar_product_rule7, insert_rules as _insert_rules7
+    _scalar_product_rule7(chk, repo, 'C07-i')
+    _insert_rules7(chk, repo, 'C07-b')
     from .plane_flow import product_rule
     product_rule(chk, repo, 'C07-i')
     # ... and which samples count as overlap (and whether two fields overlap at all, which also decides if intensity
